@@ -106,7 +106,7 @@ func c08Run(c c08Case) Outcome {
 	var maxOpened uint32
 	var blockOpen uint32 // stream whose header block awaits CONTINUATION
 	var blockRest []byte
-	var blockES, blockTrailer bool
+	var blockES, blockTrailer, blockLegal bool
 	pairs := map[string]bool{}
 	nonOpenSeen := false
 	history := ""
@@ -309,7 +309,7 @@ func c08Run(c c08Case) Outcome {
 				if f.EH {
 					s.hdrDone = true
 				} else {
-					blockOpen, blockRest, blockES, blockTrailer = id, block[len(payload):], f.ES, legalTrailer
+					blockOpen, blockRest, blockES, blockTrailer, blockLegal = id, block[len(payload):], f.ES, legalTrailer, true
 					if legalTrailer {
 						s.hdrDone = false
 					}
@@ -339,10 +339,12 @@ func c08Run(c c08Case) Outcome {
 				al = c08Allowed{none: true}
 				blockRest = blockRest[len(payload):]
 				if f.EH {
-					s.hdrDone = true
 					blockOpen = 0
-					if s.esSeen {
-						s.state = stHCR
+					if blockLegal && s != nil && (s.state == stOpen || s.state == stHCR) {
+						s.hdrDone = true
+						if s.esSeen {
+							s.state = stHCR
+						}
 					}
 				}
 			}
@@ -604,11 +606,13 @@ func c08Run(c c08Case) Outcome {
 					used[sid] = true
 				}
 			}
-			if blockOpen != 0 && rsts[blockOpen] != 0 {
-				blockOpen = 0
-			}
 		} else if !al.none {
 			return bad("no-error", "no error came back; the RFC requires %s", al.describe())
+		}
+		if f.K == "H" && !f.EH && blockOpen != id {
+			// whatever the stream's fate, a HEADERS frame without END_HEADERS that did
+			// not end the connection leaves a header block open on it (RFC 7540 6.10)
+			blockOpen, blockRest, blockLegal = id, nil, false
 		}
 		if al.ack != "" {
 			found := false
